@@ -63,14 +63,14 @@ MaxOr(S, d) == IF S = {} THEN d ELSE Max(S)
 -----------------------------------------------------------------------------------------
 Init ==
     /\ l = 2 /\ mode = "crash" /\ allowed = EmptyMap /\ inflight = NoOp
-    /\ ever = {} /\ mine = {} /\ faulted = [fired |-> FALSE, reported |-> FALSE, inop |-> FALSE]
+    /\ ever = {} /\ mine = {} /\ faulted = [fired |-> FALSE, reported |-> FALSE, inop |-> FALSE, op |-> "-"]
     /\ bad = OK
 
 Reset ==
     /\ Rec[l].ev = "reset"
     /\ mode' = Rec[l].mode
     /\ allowed' = EmptyMap /\ inflight' = NoOp /\ ever' = {} /\ mine' = {}
-    /\ faulted' = [fired |-> FALSE, reported |-> FALSE, inop |-> FALSE]
+    /\ faulted' = [fired |-> FALSE, reported |-> FALSE, inop |-> FALSE, op |-> "-"]
     /\ bad' = IF Rec[l].res = "ok" THEN OK ELSE V("C03", "open of an empty directory failed")
 
 Inv ==
@@ -109,7 +109,7 @@ Sys ==
         /\ ever' = IF r.call = "create" /\ r.res >= 0 THEN ever \cup {f} ELSE ever
         /\ mine' = IF r.call = "create" /\ r.res >= 0 THEN mine \cup {f}
                    ELSE IF r.call = "unlink" /\ r.res >= 0 THEN mine \ {f} ELSE mine
-        /\ faulted' = IF r.injected THEN [fired |-> TRUE, reported |-> FALSE, inop |-> TRUE] ELSE faulted
+        /\ faulted' = IF r.injected THEN [fired |-> TRUE, reported |-> FALSE, inop |-> TRUE, op |-> inflight.op] ELSE faulted
     /\ UNCHANGED <<mode, allowed, inflight>>
 
 \* what a probe of a crash / power-loss image must satisfy
@@ -199,6 +199,9 @@ Spec == Init /\ [][Next]_vars
 C01_NoFailureWithoutFault == bad.p # "C01"
 C03_CrashSafe == bad.p # "C03"
 C09_PowerLossSafe == bad.p # "C09"
+\* C05 for a merge pass that FAILS: it too leaves every key reading as before, now and after a restart
+\* (the fault-containment verdicts of runs whose failed call was issued by a merge)
+C05_FailedMergeKeeps == ~(bad.p = "C20" /\ faulted.fired /\ faulted.op = "merge")
 C14_FsDiscipline == bad.p # "C14"
 C20_FaultContained == bad.p # "C20"
 
